@@ -542,6 +542,233 @@ ORACLES = {"combine.orders": _o_orders, "combine.idempotent": _o_idem, "combine.
            "roles.identity-noalias": _o_roles, "signer.tamper": _o_tamper}
 
 
+# ------------------------------------------------------------------ every role returns a fresh object
+class StubSigner:
+    """PsbtSigner stubs: `echo` hands its argument back (an abstaining device), `abstain` a copy with nothing
+    added, `partial` a copy signed with some of the keys, `full` with all of them."""
+
+    def __init__(self, mode, prvs=()):
+        self.mode, self.prvs = mode, list(prvs)
+        self.master_fingerprint = b"\xaa\xbb\xcc\xdd"
+
+    def sign_psbt(self, psbt):
+        if self.mode == "echo":
+            return psbt
+        if self.mode == "abstain":
+            return deepcopy(psbt)
+        return sign(psbt, KM(self.prvs))[0]
+
+    def xpub(self, der_path):
+        raise BTClibValueError("stub")
+
+    capabilities = None
+
+    def close(self):
+        pass
+
+
+def _scramble(p: Psbt):
+    """write into every mutable part of a psbt (deeply): what a caller updating a result does."""
+    def maps(o):
+        for f in dataclasses.fields(o):
+            v = getattr(o, f.name)
+            if isinstance(v, dict):
+                for k in list(v):
+                    x = v[k]
+                    if isinstance(x, list):
+                        x.append(b"\xee")
+                    elif isinstance(x, BIP32KeyOrigin):
+                        try:
+                            x.master_fingerprint = b"\xee\xee\xee\xee"
+                        except Exception:  # noqa: BLE001 - frozen
+                            pass
+                v[b"\xee\xee"] = b"\xee"
+            elif isinstance(v, Witness):
+                try:
+                    v.stack.append(b"\xee")
+                except Exception:  # noqa: BLE001 - immutable stack
+                    pass
+            elif isinstance(v, list) and f.name not in ("inputs", "outputs"):
+                v.append((0, 0xC0, b"\xee"))
+            elif isinstance(v, (Tx, TxOut)):
+                for attr in ("value", "lock_time", "version"):
+                    try:
+                        setattr(v, attr, getattr(v, attr) + 1)
+                    except Exception:  # noqa: BLE001 - frozen: cannot be written through, which is fine
+                        pass
+                if isinstance(v, Tx):
+                    try:
+                        v.vout.append(v.vout[0])
+                    except Exception:  # noqa: BLE001
+                        pass
+            elif isinstance(v, (bytes, bytearray)):
+                setattr(o, f.name, bytes(v) + b"\xee")
+            elif isinstance(v, int) and not isinstance(v, bool) and f.name not in ("version",):
+                setattr(o, f.name, v + 1)
+    for x in p.inputs:
+        maps(x)
+    for x in p.outputs:
+        maps(x)
+    maps(p)
+    p.inputs.append(PsbtIn(check_validity=False))
+    p.outputs.append(PsbtOut(check_validity=False))
+
+
+def _run_role(role, arg, ps):
+    from btclib.psbt_signer import request_signatures
+    if role == "combine":
+        return combine(ps)
+    if role == "sign":
+        return sign(ps[0], KM(arg))[0]
+    if role == "finalize":
+        return finalize(ps[0])
+    if role == "to_v0":
+        return ps[0].to_v0()
+    if role == "to_v2":
+        return ps[0].to_v2()
+    if role == "request_signatures":
+        return request_signatures(StubSigner(*arg), ps[0])
+    if role == "software_signer":
+        return StubSigner("full", arg).sign_psbt(ps[0])
+    raise ValueError(role)
+
+
+def _o_fresh(w):
+    """role(args): the result is none of the arguments, shares no mutable object with them, and writing
+    all over it leaves every argument exactly as it was before the call."""
+    d = unpayload(w["payload"])
+    role, arg, ps = d["role"], d["arg"], d["psbts"]
+    before = [(render(p), p.serialize(check_validity=False)) for p in ps]
+    ids = set().union(*[_mutable_ids(p) for p in ps])
+    try:
+        r = _run_role(role, arg, ps)
+    except BTClibValueError as e:
+        ok = [(render(p), p.serialize(check_validity=False)) for p in ps] == before
+        return ok, f"{role} refused ({str(e)[:60]}); arguments unchanged={ok}"
+    except Exception as e:  # noqa: BLE001
+        return False, f"{role} raised {type(e).__name__}: {e}"
+    if [(render(p), p.serialize(check_validity=False)) for p in ps] != before:
+        return False, f"{role}{_a(arg)} modified an argument"
+    if any(r is p for p in ps):
+        return False, f"{role}{_a(arg)} returned its own argument: the result IS the psbt handed in"
+    shared = _mutable_ids(r) & ids
+    if shared:
+        return False, f"{role}{_a(arg)} returned an object sharing {len(shared)} mutable parts with an argument"
+    _scramble(r)
+    if [(render(p), p.serialize(check_validity=False)) for p in ps] != before:
+        return False, f"{role}{_a(arg)}: updating the result changed an argument"
+    return True, f"{role}: fresh"
+
+
+def _a(arg):
+    return f"[{arg[0]}]" if isinstance(arg, tuple) and arg and isinstance(arg[0], str) else ""
+
+
+# ------------------------------------------------------------------ conversions keep the transaction
+LOCK_SHAPES = ["none", "height", "time", "both", "mixed", "some-height", "some-time"]
+LOCK_FALLBACKS = ["none", "zero", "set"]
+
+
+def lock_psbt(rng, shape=None, fbc=None):
+    """a v2 psbt whose lock time is decided by BIP370's rule: fallback x required height/time, all combinations."""
+    n_in = rng.randrange(2, 4) if shape in ("mixed", "some-height", "some-time") else rng.randrange(1, 4)
+    TH = 500_000_000
+    heights = [1, 2, 50, 650_000, TH - 2, TH - 1]
+    times = [TH, TH + 1, 1_700_000_000, 0xFFFFFFFE, 0xFFFFFFFF]
+    shape = shape or rng.choice(LOCK_SHAPES)
+    ins = []
+    for i in range(n_in):
+        h = t = None
+        if shape == "height" or (shape == "some-height" and (i == 0 or rng.random() < 0.5)):
+            h = rng.choice(heights)
+        elif shape == "time" or (shape == "some-time" and (i == 0 or rng.random() < 0.5)):
+            t = rng.choice(times)
+        elif shape == "both":
+            h, t = rng.choice(heights), rng.choice(times)
+        elif shape == "mixed":
+            h, t = rng.choice([(rng.choice(heights), None), (None, rng.choice(times)),
+                               (rng.choice(heights), rng.choice(times)), (None, None)])
+        pk = _pub(PRV[i % len(PRV)])
+        ins.append(PsbtIn(witness_utxo=TxOut(50_000 + i, ScriptPubKey.p2wpkh(pk)),
+                          hd_key_paths={pk: BIP32KeyOrigin(b"\xaa\xbb\xcc\xdd", f"m/84h/0h/0h/0/{i}")},
+                          previous_tx_id=common.rand_bytes(rng, 32), output_index=rng.randrange(3),
+                          sequence=rng.choice([None, 0, 5, 0xFFFFFFFD, 0xFFFFFFFE]),
+                          required_height_lock_time=h, required_time_lock_time=t))
+    outs = [PsbtOut(amount=10_000 + j, script_pub_key=ScriptPubKey.p2wpkh(_pub(PRV[(j + 2) % len(PRV)])).script)
+            for j in range(rng.randrange(1, 3))]
+    fbc = fbc or rng.choice(LOCK_FALLBACKS + ["set", "set"])
+    fb = {"none": None, "zero": 0}.get(fbc, rng.choice([1, 7, 650_000, TH - 1, TH, 1_600_000_000, 0xFFFFFFFF]))
+    p = Psbt(2, ins, outs, 2, {}, fallback_lock_time=fb, tx_modifiable=rng.choice([None, 0, 3, 7]),
+             check_validity=False)
+    return p, f"fallback={'none' if fb is None else 'zero' if fb == 0 else 'set'} required={shape}"
+
+
+def _o_convert(w):
+    """to_v0 / to_v2 never change the transaction: same tx, same txid, and back again."""
+    p = unpayload(w["payload"])["psbt"]
+    try:
+        p.assert_valid()
+        tx = p.tx
+    except BTClibValueError:
+        try:
+            p.to_v0()
+        except BTClibValueError:
+            return True, "no lock time satisfies every input: refused, as everywhere"
+        return False, "to_v0 accepted a psbt that has no transaction"
+    try:
+        v0 = p.to_v0()
+        v2 = v0.to_v2()
+        v0b = v2.to_v0()
+    except Exception as e:  # noqa: BLE001
+        return False, f"conversion raised {type(e).__name__}: {e}"
+    if v0.tx != tx or v0.tx.id != tx.id:
+        return False, f"to_v0 changed the transaction: lock_time {tx.lock_time} -> {v0.tx.lock_time}"
+    if v2.tx != tx or v2.tx.id != tx.id:
+        return False, f"to_v2(to_v0(p)) is another transaction: lock_time {tx.lock_time} -> {v2.tx.lock_time}"
+    if p.version == 2 and p.to_v2().unique_id != p.unique_id:
+        return False, "to_v2 changed the unique id"
+    if v0b.serialize() != v0.serialize() or Psbt.parse(v0.serialize()).tx != tx:
+        return False, "to_v0 . to_v2 . to_v0 differs from to_v0, or the v0 bytes carry another transaction"
+    return True, f"lock_time {tx.lock_time}"
+
+
+# ------------------------------------------------------------------ a falsy value held by a later operand only
+def _o_falsy_later(w):
+    """for a merged field whose absence is None: a falsy-but-present value (0, b"") held only by one
+    operand is in the result, whichever position that operand has."""
+    sec, name = w["sec"], w["field"]
+    G1 = bytes.fromhex("0279be667ef9dcbbac55a06295ce870b07029bfcdb2dce28d959f2815b16f81798")
+    G2 = bytes.fromhex("02c6047f9441ed7d6d3045406e95c07cd85c778e4b8cef3ca7abac09b95c709ee5")
+    a = Psbt(2, [PsbtIn(previous_tx_id=b"\x11" * 32, output_index=0)],
+             [PsbtOut(amount=1000, sp_v0_info=G1 + G2)], 2, {})
+    tried = 0
+    for val in (0, b""):
+        b = deepcopy(a)
+        o = b if sec == "glob" else (b.inputs[0] if sec == "in" else b.outputs[0])
+        if getattr(o, name) is not None:
+            continue
+        setattr(o, name, val)
+        try:
+            b.assert_valid()
+            if b.serialize() == a.serialize() or b.unique_id != a.unique_id:
+                continue        # not a present value for this field / another transaction
+        except Exception:  # noqa: BLE001
+            continue
+        tried += 1
+        for ops, what in (([a, b], "later"), ([b, a], "first"), ([a, a, b], "last of three")):
+            try:
+                r = combine(ops)
+            except Exception as e:  # noqa: BLE001
+                return False, f"{sec}.{name}={val!r} held by the {what} operand: combine raised {e}"
+            ro = r if sec == "glob" else (r.inputs[0] if sec == "in" else r.outputs[0])
+            if getattr(ro, name) != val or type(getattr(ro, name)) is not type(val) or r.serialize() != b.serialize():
+                return False, (f"{sec}.{name}={val!r} held only by the {what} operand is lost: "
+                               f"result has {getattr(ro, name)!r}")
+    return True, f"{sec}.{name}: {tried} falsy values kept"
+
+
+ORACLES.update({"roles.fresh": _o_fresh, "convert.identity": _o_convert, "combine.falsy-later": _o_falsy_later})
+
 # ------------------------------------------------------------------ streams
 def exprs_for(rng, k, ctx):
     perms = list(itertools.permutations(range(k)))
@@ -736,6 +963,51 @@ def run(ctx):
             sig_lines.append(f"sigonly {render(req)} {render(bad)} " + payload({"op": "sigonly", "request": req, "returned": bad}))
     ctx.correspond("signer.sigonly", EXE, [(ln, impl(ln)) for ln in sig_lines],
                    nontrivial=lambda ln, out: True, key="signer.sigonly")
+
+    # ---- every role, every kind of signer: fresh objects
+    for _ in range(ctx.n(12, 150)):
+        p = built(rng, rng.choice([0, 2]))
+        if rng.random() < 0.5:
+            p = sign(p, KM([PRV[0]]))[0]
+        q = sign(p, KM(rng.sample(PRV, 2)))[0]
+        cases = [("combine", None, [p, q]), ("combine", None, [p]), ("sign", rng.sample(PRV, 2), [p]),
+                 ("sign", [0x7777], [p]), ("finalize", None, [sign(p, KM(PRV))[0]]), ("to_v0", None, [p]),
+                 ("to_v2", None, [p]), ("software_signer", list(PRV), [p]),
+                 ("request_signatures", ("echo",), [p]), ("request_signatures", ("abstain",), [p]),
+                 ("request_signatures", ("partial", rng.sample(PRV, 1)), [p]),
+                 ("request_signatures", ("full", list(PRV)), [p]),
+                 ("request_signatures", ("echo",), [sign(p, KM(PRV))[0]])]
+        for role, arg, ps in cases:
+            ctx.count("fresh", role + _a(arg))
+            ctx.check("roles.fresh", {"payload": payload({"role": role, "arg": arg, "psbts": ps}),
+                                      "role": role + _a(arg)}, key=f"roles.fresh.{role}")
+    # ---- conversions on psbts whose lock time BIP370's rule decides
+    lock_lines = []
+    combos = [(sh, fc) for sh in LOCK_SHAPES for fc in LOCK_FALLBACKS]
+    for j in range(ctx.n(126, 2520)):
+        p, cls = lock_psbt(rng, *combos[j % len(combos)]) if j < 3 * len(combos) else lock_psbt(rng)
+        ctx.count("locktime", cls)
+        ctx.check("convert.identity", {"payload": payload({"psbt": p}), "class": cls}, key="convert.identity")
+        try:
+            p.assert_valid()
+        except BTClibValueError:
+            if "no lock time" not in cls and "mixed" not in cls:
+                pass
+        tok = render(p)
+        lock_lines.append(f"tov0 {tok} " + payload({"op": "tov0", "psbt": p}))
+        lock_lines.append(f"tx {tok} 0 " + payload({"op": "tx", "psbt": p, "for_id": False}))
+    ctx.correspond("psbt.convert-locktime", EXE, [(ln, impl(ln)) for ln in lock_lines],
+                   nontrivial=lambda ln, out: True, key="psbt.convert")
+    for sh, fc in combos:
+        if not ctx.hist.get("locktime", {}).get(f"fallback={fc} required={sh}"):
+            raise common.HarnessError(f"lock-time class `fallback={fc} required={sh}` was not generated")
+    # ---- falsy-but-present values of every merged `is None` field
+    u = spec()["universe"]
+    for sec in ("glob", "in", "out"):
+        merged = dict(spec()["calls"][sec])
+        for n, kind, pres, _v2 in u[sec]:
+            if pres == "notNone" and kind == "scalar" and merged.get(n) in ("truthy", "notNone"):
+                ctx.check("combine.falsy-later", {"sec": sec, "field": n}, key=f"combine.falsy-lost.{sec}.{n}")
     findings(ctx)
 
 
